@@ -88,6 +88,10 @@ class Identities(Op):
             m = gens.mode(rng)
             a, b = T.gen_pair(rng, m)
             yield (m, a, b, T.gen_exact_dur(rng))
+        for _ in range(n // 3):       # operands near year boundaries, whole leap cycles apart among others
+            m = gens.mode(rng)
+            p, q, d = T.gen_year_edge_pair(rng, m)
+            yield (m, q, p, d)
 
     def line(self, a):
         return "subident %s %s %s %s" % (a[0], T.tp_str(a[1]), T.tp_str(a[2]), T.dur_str(a[3]))
